@@ -237,28 +237,35 @@ func (c *SimConn) Read(p []byte) (int, error) {
 			n = cut
 		}
 	}
-	ch := &c.pending[0]
-	if left := ch.Len() - c.poff; left < n {
-		n = left
-	}
 	if c.eofAt >= 0 && c.eofAt-c.inBytes < n {
 		n = c.eofAt - c.inBytes
 	}
-	if ch.Pat != nil {
-		pl := int64(len(ch.Pat))
-		for i := int64(0); i < n; i++ {
-			p[i] = ch.Pat[(c.poff+i)%pl]
+	// one read may span several pipelined messages (a segment boundary is not a
+	// message boundary)
+	var done int64
+	for done < n && len(c.pending) > 0 {
+		ch := &c.pending[0]
+		m := n - done
+		if left := ch.Len() - c.poff; left < m {
+			m = left
 		}
-	} else {
-		copy(p[:n], ch.Lit[c.poff:c.poff+n])
+		if ch.Pat != nil {
+			pl := int64(len(ch.Pat))
+			for i := int64(0); i < m; i++ {
+				p[done+i] = ch.Pat[(c.poff+i)%pl]
+			}
+		} else {
+			copy(p[done:done+m], ch.Lit[c.poff:c.poff+m])
+		}
+		c.poff += m
+		done += m
+		if c.poff >= ch.Len() {
+			c.pending = c.pending[1:]
+			c.poff = 0
+		}
 	}
-	c.poff += n
-	c.inBytes += n
-	if c.poff >= ch.Len() {
-		c.pending = c.pending[1:]
-		c.poff = 0
-	}
-	return int(n), nil
+	c.inBytes += done
+	return int(done), nil
 }
 
 //go:norace
